@@ -111,6 +111,23 @@ class G:
     # ------------------------------------------------------------ preambles
     def handshake(self):
         r = self.rng
+        if self.flavour == 'upgrade':
+            # the connection starts as an h2c upgrade: stream 1 exists half-closed on both sides
+            lit = r.choice([[], [[4, 100], [3, 5]], [[1, 0], [5, 16385]], [[2, 0], [6, 200]], [[4, 2147483647]]])
+            if self.pair:
+                if r.random() < 0.3:
+                    self.call('c', {'op': 'set', 's': self.valid_set_pairs('c', False)})
+                self.call('c', {'op': 'upg', 'src': 'none', 's': []})
+                self.call('s', {'op': 'upg', 'src': r.choice(['peer', 'peer', 'peer', 'none']), 's': []})
+                self.dlv('s', len(self.sess.chan['s']))
+                self.dlv('c', len(self.sess.chan['c']))
+                return
+            x = self.profile
+            self.call(x, {'op': 'upg', 'src': 'lit' if lit else 'none', 's': lit})
+            self.recv(x, [{'t': 'SET', 'ack': False, 's': []}])
+            if r.random() < 0.8:
+                self.recv(x, [{'t': 'SET', 'ack': True, 's': []}])
+            return
         if self.pair:
             self.call('c', {'op': 'init'})
             self.call('s', {'op': 'init'})
@@ -436,6 +453,7 @@ class G:
         ss = self.streams(x)
         opts = []            # (weight, thunk)
         W = {'flow': dict(data=8, ack=8, inc=3, set=2), 'settings': dict(set=8), 'life': dict(new=6, end=3, rst=2, count=2),
+             'upgrade': dict(new=3, resp=4, end=2, rst=1, count=2),
              'push': dict(push=10, rst=2, set=1.5), 'headers': dict(new=6, resp=6, trl=4, push=3),
              'close': dict(close=1), 'misc': dict(ping=5, prio=6, alt=6)}.get(f, {})
 
@@ -534,6 +552,7 @@ class G:
         z = self.z(x)
         opts = []
         W = {'flow': dict(data=8, wu=4, set=2, ack=2), 'settings': dict(set=8, ack=6), 'life': dict(new=6, rst=3, trl=2),
+             'upgrade': dict(new=3, resp=4, rst=1, trl=2),
              'push': dict(pp=10, resp=3, rst=2, set=1.5), 'headers': dict(new=6, resp=6, trl=4, pp=3),
              'close': dict(goaway=1), 'misc': dict(ping=5, prio=6, alt=6)}.get(f, {})
 
